@@ -727,6 +727,10 @@ class Evaluator(object):
             for t in s.targets:
                 self.assign(t, v)
             return
+        if isinstance(s, ast.AnnAssign):
+            if s.value is not None:
+                self.assign(s.target, self.ev(s.value))
+            return
         if isinstance(s, ast.AugAssign):
             cur = self.ev(s.target)
             v = self.ev(s.value)
